@@ -42,6 +42,8 @@ def run_one(c, timeout):
         os.remove(f)
     cmd = ["mpiexec", "--allow-run-as-root", "--oversubscribe", "--bind-to", "none", "-n", str(c["ranks"]),
            c["exe"], str(c["mseed"]), str(c["size"]), str(c["threads"]), str(c["ckpt"]), str(c["gvt"]), str(c["pseed"]), str(c["fp"]), str(c["variant"])]
+    if c.get("stats"):
+        cmd.append(c["stats"])
     env = {"VERIF_OUT": out, "VERIF_MPI_FAULT": str(c["fault"]), "VM_FORCE_DEST": str(c.get("dest", 2)), "OMPI_MCA_btl": "self,vader,tcp", "OMPI_MCA_rmaps_base_oversubscribe": "1"}
     res = vlib.run_case(cmd, timeout=timeout, env=env,
                         tag="m%d/%dx%d/ck%d/g%d/p%d/fp%d/v%d/f%d" % (c["mseed"], c["ranks"], c["threads"], c["ckpt"], c["gvt"], c["pseed"], c["fp"], c["variant"], c["fault"]))
